@@ -1054,7 +1054,8 @@ PROPS = {
         n_quick=200, n_thorough=2000,
         gates=["feature.reentry", "feature.stdlib", "feature.while", "feature.call", "outcome.ETimeout",
                "outcome.ECallStackOverflow", "need.found", "need.timeout_at_generous", "budget.zero",
-               "corpus.nested_budget", "corpus.stdlib_key_function_loops", "corpus.infinite_loop",
+               "corpus.nested_budget", "corpus.nested_budget_native_value", "corpus.nested_budget_mixed_paths",
+               "corpus.nested_budget_sort_value", "corpus.stdlib_key_function_loops", "corpus.infinite_loop",
                "corpus.infinite_recursion"],
         rule="the VM stream (tools/props.py 'VM'): compiled corpus and random programs incl. While(1), unbounded "
              "recursion, re-entrant natives and std.*_by_key with looping key functions, each run with budgets "
@@ -1185,7 +1186,7 @@ PROPS = {
             "C18_reentry_balanced_straightline": [],
         },
         n_quick=200, n_thorough=2000,
-        gates=["feature.native", "feature.native_arity4", "feature.native_value_call", "feature.reentry",
+        gates=["feature.native", "feature.native_arity4", "feature.native_value_call", "feature.native_value_reentry", "feature.reentry",
                "outcome.conversion_error", "outcome.ETaskFailure", "outcome.EProcedureNotFound",
                "rb1.callee_ok", "rb1.callee_failed", "reserved_names", "registration_history", "corpus.reentry",
                "corpus.natives"],
